@@ -24,8 +24,8 @@ from pathlib import Path
 
 ROOT = Path(__file__).resolve().parents[2]          # /verif
 REPO = Path(os.environ.get("VERIF_REPO", "/repo"))
-EVIDENCE_DIR = ROOT / "evidence"
-REPLAY_DIR = ROOT / "replays"
+EVIDENCE_DIR = Path(os.environ.get("VERIF_EVIDENCE_DIR", ROOT / "evidence"))
+REPLAY_DIR = Path(os.environ.get("VERIF_REPLAY_DIR", ROOT / "replays"))
 KNOWN_FINDINGS = ROOT / "known_findings.json"
 CACHE_DIR = ROOT / ".cache"
 NCPU = os.cpu_count() or 4
@@ -164,7 +164,7 @@ def match_known(known, prop: str, obligation: str, clause: str):
 def write_evidence(prop: str, tier: str, level: str, obligations: list, *, wall_s: float,
                    checker_cmd: str, trusted_base: list, assumptions: list, violations: int,
                    extra: dict | None = None):
-    EVIDENCE_DIR.mkdir(exist_ok=True)
+    EVIDENCE_DIR.mkdir(exist_ok=True, parents=True)
     counted = [o for o in obligations if not o.report_only]
     discharged = [o for o in counted if o.status == "discharged"]
     proved = [o for o in discharged if o.bounded is None]
@@ -216,7 +216,7 @@ def write_evidence(prop: str, tier: str, level: str, obligations: list, *, wall_
 
 
 def write_replay(prop: str, ob: Obligation, payload: dict) -> Path:
-    REPLAY_DIR.mkdir(exist_ok=True)
+    REPLAY_DIR.mkdir(exist_ok=True, parents=True)
     name = re.sub(r"[^A-Za-z0-9_.-]", "_", ob.id)
     body = {"property": prop, "obligation": ob.id, "engine": ob.engine,
             "functions": ob.functions, "source": ob.source,
